@@ -37,6 +37,12 @@ def tt_spec(draw, min_order=1, max_order=4, kind=None, max_dim=3, max_rank=3, cp
     spec['layout'] = draw(LAYOUT) if layouts else 'C'
     if not c and int_dtype and draw(st.sampled_from([False, False, False, True])):
         spec['int_dtype'] = True
+    if c and d >= 2 and cplx is None and draw(st.sampled_from([False, False, True])):
+        # some cores of a complex train are real-typed (at least one core stays complex)
+        real = [i for i in range(d) if draw(st.booleans())]
+        if len(real) == d:
+            real = real[1:]
+        spec['real_cores'] = real
     return spec
 
 
@@ -57,6 +63,8 @@ def spec_labels(spec, prefix=''):
         lab.add(prefix + 'rank1bond')
     if spec['cplx']:
         lab.add(prefix + 'complex')
+        if spec.get('real_cores'):
+            lab.add(prefix + 'mixed_core_dtypes')
     if spec.get('layout', 'C') != 'C':
         lab.add(prefix + 'layout' + spec['layout'])
     if spec.get('int_dtype'):
